@@ -441,6 +441,19 @@ func resolveUpdate(w *World, op Op, st Stored) *Request {
 		for i := 0; i < n; i++ {
 			r.Proof = append(r.Proof, pr.Bytes(32))
 		}
+	case "long":
+		// far more hashes than any consistency proof between 64-bit sizes has (at most 2*64), or just beyond 64/65/128
+		n := []int{64, 65, 66, 67, 127, 128, 129, 130, 200, 300}[op.PV%10]
+		r.Proof = [][]byte{}
+		for i := 0; i < n; i++ {
+			r.Proof = append(r.Proof, pr.Bytes(32))
+		}
+	case "honest_padded":
+		// the correct proof followed by junk up to a round number of hashes
+		r.Proof = honest(tree, from, r.Size)
+		for len(r.Proof) < []int{64, 65, 66, 129}[op.PV%4] {
+			r.Proof = append(r.Proof, pr.Bytes(32))
+		}
 	case "prepend_old_root":
 		// the correct proof with the stored root put in front (what a proof builder that "always leads with the old root" sends)
 		r.Proof = append([][]byte{append([]byte{}, st.Root...)}, honest(tree, from, r.Size)...)
